@@ -191,3 +191,19 @@ func VH_C04_untypedInt_to_float32() {
 	}
 	vhReach("end")
 }
+
+// an untyped integer constant converted to string: the UTF-8 encoding of that code point (U+FFFD when out of range)
+func VH_C04_untypedInt_to_string() {
+	c := vhConstInt("constant")
+	var zero string
+	res, failed := vhLitConvert(&Lit{Kind: Int, Val: c}, vhTypeOf(zero))
+	vhAssert(!failed, "an untyped integer constant converts to string")
+	if !failed {
+		got, ok := res.(string)
+		vhAssert(ok, "the result has the target type")
+		if ok && vhConstFits(c, -9223372036854775808, 9223372036854775807) {
+			vhAssert(got == string(rune32or64(int64(vhConstLow64(c)))), "the string holds the UTF-8 encoding of the code point")
+		}
+	}
+	vhReach("end")
+}
